@@ -16,7 +16,7 @@ pub fn meta() -> Meta {
     Meta {
         id: "C08",
         level: "model_checking",
-        rule: "explicit-state BFS over the subset lattice: state = .skf content (hidden fields included) of the remaining samples, actions = the real generic_modes::delete of every non-empty proper subset of the current names, the names given in every order (up to three names; file order, reversed and rotated above) (quick: n<=5 and n=7 with single deletions; thorough: n<=6 and the full lattice for n=8), so every subset is reached along every chain; the lattice is explored from the freshly built file and again from the same file after `weed --filter-ambig-as-missing` (stored counts that exclude ambiguous bases); invariant in every state of the fresh lattice: the file equals the model table and the real fresh build of the remaining samples (order kept, rows of deleted-only k-mers gone, stored counts = fresh counts). CLI family: names on the command line vs one-per-line names file (with/without trailing newline, blank line, CRLF line ends, trailing blanks; sample names that contain a space), in place and with -o; refusals (unknown name, all samples) must exit non-zero and leave the file byte-identical. Search paths are re-executed through `ska delete`.".into(),
+        rule: "explicit-state BFS over the subset lattice: state = .skf content (hidden fields included) of the remaining samples, actions = the real generic_modes::delete of every non-empty proper subset of the current names, the names given in every order (up to three names; file order, reversed and rotated above) (quick: n<=5 and n=7 with single deletions; thorough: n<=6 and the full lattice for n=8), so every subset is reached along every chain; the lattice is explored from the freshly built file and again from the same file after `weed --filter-ambig-as-missing` (stored counts that exclude ambiguous bases); invariant in every state of the fresh lattice: the file equals the model table and the real fresh build of the remaining samples (order kept, rows of deleted-only k-mers gone, stored counts = fresh counts). CLI family: names on the command line vs one-per-line names file (with/without trailing newline, blank line, CRLF line ends, trailing blanks; sample names that contain a space), in place and with -o; refusals (unknown name, all samples) must exit non-zero and leave the file byte-identical. Search paths are re-executed through `ska delete`. The lattice is also explored from a file in which one sample has no k-mer left (the start file weeded with that sample's own sequences): deleting it alone or together with others must leave no row without a base.".into(),
         assumptions: vec!["sorted-row canonical form: delete treats rows independently".into()],
         exhaustive_when_uncapped: true, // the declared bounded space (all selections / the whole lattice / all histories up to the depth bound / all interleavings and configurations) is enumerated completely unless capped
     }
@@ -327,6 +327,21 @@ pub fn run(ctx: &Ctx, rep: &mut Report) {
                         }
                         w.fresh = false;
                         let _ = bfs::explore(&w, &[h], n, &one, rep, &format!("k={k} rc={rc} n={n} after weed --filter-ambig-as-missing"), false);
+                    }
+                }
+            }
+            // and from a file in which one sample has no k-mer left: weeded with that sample's own sequences
+            if n >= 3 {
+                let hist = scratch::path("c08_hist2.skf");
+                let wfa = scratch::write("c08_weed_s2.fa", &scratch::fasta(&w.pool[2]));
+                if ops::op_weed(&start, &ops::WeedArgs::plain(&wfa, false), &hist).is_ok() {
+                    if let Ok(h) = FileState::read(&hist) {
+                        let col_empty = h.table.rows.values().all(|r| r[2] == b'-');
+                        if col_empty && !h.table.rows.is_empty() {
+                            rep.corner("start_file_with_a_sample_without_kmers");
+                            w.fresh = false;
+                            let _ = bfs::explore(&w, &[h], n, &one, rep, &format!("k={k} rc={rc} n={n} after weeding with sample s2's sequences"), false);
+                        }
                     }
                 }
             }
